@@ -167,6 +167,7 @@ func runC06(c *vf.Ctx) {
 				}
 			}
 			// afterRefresh applies the property's clauses after a refresh that returned nil.
+			missOverlap := false // set while checking a refresh that overlapped a lookup miss
 			twoRefreshes := false // set when an "overlapping" step really ran two refreshes one after the other
 			afterRefresh := func(lo, hi time.Time, label string) {
 				l := list()
@@ -179,7 +180,9 @@ func runC06(c *vf.Ctx) {
 					if reported {
 						if inList == nil {
 							key := "reported-provider-not-listed-after-refresh"
-							if cancelledSinceOK {
+							if missOverlap {
+								key = "reported-provider-not-listed-after-refresh:refresh-overlapping-lookup-miss"
+							} else if cancelledSinceOK {
 								key = "reported-provider-not-listed-after-refresh:cancelled-refresh-then-success"
 							}
 							fail(key, fmt.Sprintf("%s: provider %s offered v%d", label, p, want))
@@ -194,7 +197,9 @@ func runC06(c *vf.Ctx) {
 						for _, pi := range []*model.ProviderInfo{inList, got} {
 							if versionOf(pi) < want {
 								key := "stale-record-after-refresh"
-								if cancelledSinceOK {
+								if missOverlap {
+									key = "stale-record-after-refresh:refresh-overlapping-lookup-miss"
+								} else if cancelledSinceOK {
 									key = "stale-record-after-refresh:cancelled-refresh-then-success"
 								}
 								fail(key, fmt.Sprintf("%s: provider %s shown v%d, a responding source offers v%d", label, p, versionOf(pi), want))
@@ -256,7 +261,7 @@ func runC06(c *vf.Ctx) {
 			nsteps := 10 + r.Intn(30)
 			prevKind := "start"
 			for st := 0; st < nsteps && !bad; st++ {
-				kind := []string{"change", "change", "refresh", "refresh", "refresh-cancelled", "refresh-overlap", "get-miss", "get-negative", "fail-source", "heal-source", "wait"}[r.Intn(11)]
+				kind := []string{"change", "change", "refresh", "refresh", "refresh-cancelled", "refresh-overlap", "refresh-while-miss", "get-miss", "get-negative", "fail-source", "heal-source", "wait"}[r.Intn(12)]
 				c.DistinctIn("step_bigrams", prevKind, kind)
 				prevKind = kind
 				switch kind {
@@ -360,6 +365,50 @@ func runC06(c *vf.Ctx) {
 					twoRefreshes = callsAfter-callsBefore >= 2
 					afterRefresh(lo, hi, fmt.Sprintf("step %d overlapping refresh", st))
 					twoRefreshes = false
+				case "refresh-while-miss":
+					// a lookup miss is inside a source when Refresh is called
+					if ttlMode == "tiny" {
+						time.Sleep(2 * time.Millisecond)
+					}
+					missP := pool[110+(st+i)%10] // never reported, never looked up twice in a row
+					gate := make(chan struct{})
+					entered := make(chan struct{}, 1)
+					srcs[0].mu.Lock()
+					srcs[0].onFetch = func(cx context.Context, _ peer.ID) error {
+						select {
+						case entered <- struct{}{}:
+						default:
+						}
+						<-gate
+						return nil
+					}
+					srcs[0].mu.Unlock()
+					missDone := make(chan struct{})
+					go func() { defer close(missDone); _, _ = pc.Get(context.Background(), missP) }()
+					select {
+					case <-entered:
+					case <-missDone: // already negative-cached: no source call, nothing to overlap with
+					}
+					lo := time.Now()
+					rerr := make(chan error, 1)
+					go func() { rerr <- pc.Refresh(context.Background()) }()
+					time.Sleep(time.Millisecond)
+					srcs[0].mu.Lock()
+					srcs[0].onFetch = nil
+					srcs[0].mu.Unlock()
+					close(gate)
+					<-missDone
+					err := <-rerr
+					hi := time.Now()
+					steps = append(steps, fmt.Sprintf("Refresh called while a lookup miss was inside %s -> %v", srcs[0].name, err))
+					if err != nil {
+						fail("refresh-error", err.Error())
+						break
+					}
+					c.Inc("refreshes_while_miss_fetch")
+					missOverlap = true
+					afterRefresh(lo, hi, fmt.Sprintf("step %d refresh overlapping a lookup miss", st))
+					missOverlap = false
 				case "get-miss":
 					// a provider the sources report but the cache may not hold yet
 					p := provs[r.Intn(len(provs))]
